@@ -392,7 +392,22 @@ def page_counters_in_flow():
         yield f'pgctr-{counter}-at{where}-n{fillers}-H{height}', html, w.groups
 
 
-FAMILIES = [floats_first_on_page, overflow_hidden_containers, table_rows_taller_than_split_cell,
+def grid_row_spans():
+    """Grid containers broken across pages, after a first paragraph, holding an item that spans two or three rows
+    placed so that the page break falls before, inside or after its span: every item (one word each, its own group:
+    grid items are parallel flows) is rendered exactly once."""
+    for span, at, column, height, rows in itertools.product((2, 3), (1, 2, 3, 4), (0, 1), (40, 50), (7,)):
+        w = Words()
+        body = f'<p>{w.take(1)[0]}</p>'
+        items = []
+        for index in range(2 * rows - (span - 1)):
+            style = f'grid-row:span {span}' if index == 2 * at + column else ''
+            items.append(f'<div style="{style}">{w.take(1, ctx=("grid",))[0]}</div>')
+        body += f'<div style="display:grid;grid-template-columns:90px 90px">{"".join(items)}</div><p>{w.take(1)[0]}</p>'
+        yield f'grid-span{span}-r{at}-c{column}-H{height}', page(body, 200, height), w.groups
+
+
+FAMILIES = [grid_row_spans, floats_first_on_page, overflow_hidden_containers, table_rows_taller_than_split_cell,
             several_header_footer_groups, page_counters_in_flow, inline_floats, absolutes_long, max_lines_blocks, footnotes_in_columns, floats_definite, table_spans, footer_tables, column_spans,
             footnotes_plain, floats_long, forced_breaks_in_tables, padded_containers]
 
